@@ -128,7 +128,7 @@ pub fn digest(parts: &[&[u8]]) -> String {
 }
 
 pub trait Check: Sync {
-    type Scenario: Serialize + DeserializeOwned + Clone + Send;
+    type Scenario: Serialize + DeserializeOwned + Clone + Send + Sync;
 
     fn id(&self) -> &'static str;
     fn level(&self) -> &'static str;
@@ -275,12 +275,9 @@ pub fn run_batch<C: Check>(check: &C, opts: &Opts) -> BatchResult<C::Scenario> {
                     }
                     let mut rng = SimRng::for_run(opts.seed, check.id(), i);
                     let sc = check.generate(&mut rng, opts.tier, i);
-                    let mut st = RunStats::default();
-                    crate::free::reset_run_state();
-                    crate::world::reset_params_cache();
-                    merlin::tap::stop();
-                    merlin::tap::reset_ids();
-                    let viols = check.execute(&sc, &mut st);
+                    // every run executes on its own fresh OS thread: neither the simulator's nor the
+                    // library's thread-local state can carry over from one run to the next
+                    let (st, viols) = run_isolated(check, &sc, false);
                     let mut a = acc.lock().unwrap();
                     a.runs += 1;
                     a.evals += st.evals;
@@ -353,16 +350,37 @@ fn truncate_sample(v: Value) -> Value {
     }
 }
 
+/// Execute one resolved scenario on a fresh OS thread with fresh per-run state.
+pub fn run_isolated<C: Check>(check: &C, sc: &C::Scenario, keep_log: bool) -> (RunStats, Vec<Violation>) {
+    std::thread::scope(|scope| {
+        let h = std::thread::Builder::new()
+            .stack_size(16 << 20)
+            .spawn_scoped(scope, || {
+                crate::world::install_quiet_panic_hook();
+                let mut st = RunStats::default();
+                st.keep_log = keep_log;
+                crate::free::reset_run_state();
+                crate::world::reset_params_cache();
+                merlin::tap::stop();
+                merlin::tap::reset_ids();
+                let v = check.execute(sc, &mut st);
+                (st, v)
+            })
+            .expect("spawn run thread");
+        match h.join() {
+            Ok(r) => r,
+            Err(_) => {
+                let mut st = RunStats::default();
+                st.event("run thread panicked outside guarded library calls");
+                (st, vec![Violation::new("harness:run_panicked", "panic", "the run's thread panicked outside a guarded library call".to_string())])
+            },
+        }
+    })
+}
+
 /// Delta-debug a failing scenario while the same invariant keeps failing.
 pub fn minimise<C: Check>(check: &C, sc: &C::Scenario, invariant: &str) -> Option<(C::Scenario, Violation, u64)> {
-    let exec = |s: &C::Scenario| -> Option<Violation> {
-        let mut st = RunStats::default();
-        crate::free::reset_run_state();
-        crate::world::reset_params_cache();
-        merlin::tap::stop();
-        merlin::tap::reset_ids();
-        check.execute(s, &mut st).into_iter().find(|v| v.invariant == invariant)
-    };
+    let exec = |s: &C::Scenario| -> Option<Violation> { run_isolated(check, s, false).1.into_iter().find(|v| v.invariant == invariant) };
     let mut cur = sc.clone();
     // a violation that does not reproduce when its resolved scenario is executed again is not
     // believed: the caller reports it as a harness error, never as a violation
@@ -415,13 +433,7 @@ pub fn write_replay(root: &PathBuf, r: &ReplayFile) -> PathBuf {
 pub fn replay<C: Check>(check: &C, file: &ReplayFile) -> Option<Violation> {
     crate::world::install_quiet_panic_hook();
     let sc: C::Scenario = serde_json::from_value(file.scenario.clone()).expect("scenario parses");
-    let mut st = RunStats::default();
-    st.keep_log = true;
-    crate::free::reset_run_state();
-    crate::world::reset_params_cache();
-    merlin::tap::stop();
-    merlin::tap::reset_ids();
-    let v = check.execute(&sc, &mut st);
+    let (st, v) = run_isolated(check, &sc, true);
     for l in &st.log {
         println!("  {}", l);
     }
